@@ -2,8 +2,12 @@
 from facts import walk, callee_of, call_args, loc
 import sem, hirq, anchors, absx, thresholds, rope
 
-EXPLANATION = ("B1 identifier octet - decided by exhaustive literal evaluation: the TLV parser is interpreted on [X, 0, 0x5A] for every identifier octet X with tag number < 31 (whatever bit parsers, helpers, masks or tables it reads the octet with) and must answer class X>>6 (X.690 numbering), structure bit 6, number X&0x1F and the untouched remainder; the writer is interpreted for every (class, structure, number <= 30) and must emit class<<6 | structure<<5 | number (ids above 30: the 0x1F escape); the reader gives back what the writer wrote; formerly: the writer composes "
-               "class<<6 | structure<<5 | id (ids <= 30, else 0x1F) and the reader takes 2, 1, 5 bits in that order, 6 = 8-2 and 5 = 8-2-1; "
+EXPLANATION = ("B1 identifier octet - decided by exhaustive literal evaluation: the public TLV parser is interpreted on [X, 0x00, 0x5A] for every "
+               "identifier octet X with tag number < 31 (whatever it reads the octet with: nom bit parsers through helpers, shifts and masks, a table of "
+               "constants - rules/nomlit.py holds the exact models of the nom primitives on literal input) and must answer class X>>6 in X.690's numbering, "
+               "primitive / constructed by bit 6, number X & 0x1F and the untouched remainder; the identifier writer is interpreted for every "
+               "(class, structure, number <= 30) and must emit the one octet class<<6 | structure<<5 | number (above 30: 0x1F in the low bits first); "
+               "the reader gives back the triple the writer wrote; a header cut off before the length octet is answered with Incomplete; "
                "TagClass / TagStructure discriminants equal their from_u8 tables (evaluated for all 256 inputs); B2 length - the writer uses "
                "the short form iff length < 128 and the reader iff the first octet < 128 (same operator and constant on both sides), the "
                "long-form marker is count | 0x80 against len - 128, only definite forms are emitted; B3 BOOLEAN emits {0xFF} / {0x00}, "
@@ -13,7 +17,7 @@ EXPLANATION = ("B1 identifier octet - decided by exhaustive literal evaluation: 
                "length octets and the content - the payload octets, resp. the encodings of the children in order -, read off the final buffer (a rope of "
                "segments with positions as formal sums of segment lengths, rules/rope.py), so it does not matter whether the length is written before the content or a "
                "placeholder is patched / replaced / inserted afterwards; the length octets are write_length(L), constants or L's low octet with L formally the content length, "
-               "and are evaluated at every change point of the partition induced by the branch conditions on L and by write_length's own against the minimal definite form; B7 the TLV parser's children loop ends only when the content is used up, keeps every child and continues with its remainder, and every error path is the failure of one of its primitives or the nesting bound; B2m/B5 the two arithmetic functions - "
+               "and are evaluated at every change point of the partition induced by the branch conditions on L and by write_length's own against the minimal definite form; B7 the TLV parser's children loop ends only when the content is used up, keeps every child and continues with its remainder, every error path is the failure of one of its primitives or the nesting bound, and what a child is given as its depth is the entry depth plus one (not a value that grows from sibling to sibling); B2m/B5 the two arithmetic functions - "
                "write_length and the INTEGER/ENUMERATED content encoder - are functions of one integer whose every branch condition is a "
                "comparison of the (possibly complemented) value shifted right by a constant with a constant (checked); such conditions "
                "can change only at finitely many change points, so the path taken and the octets emitted are decided exactly by "
@@ -241,7 +245,8 @@ def check_identifier_octet(ctx, f):
     for octets in ([], [0x30], [0x04], [0xA3]):
         res = read(octets)
         v = res[0].val if len(res) == 1 and res[0].kind in ('val', 'ret') else None
-        v = v[1] if v is not None and v[0] == 'tryerr' else v
+        while v is not None and v[0] == 'tryerr':          # the failure of a `?` (possibly handed up through several inlined callees) is that Err value
+            v = v[1]
         if not (v is not None and v[0] == 'ctor' and v[1] == 'Err' and v[2] and v[2][0][0] == 'ctor' and v[2][0][1] == 'Err::Incomplete'):
             short.append((bytes(octets).hex() or '(empty)', absx.fmt(v)[:60] if v is not None else [o.kind for o in res]))
     ctx.add('B1.reader-short-input-asks-for-more', 'parse_tag', here, not short,
